@@ -211,10 +211,23 @@ func checkC06(c *Ctx, r *Result, tier string) {
 	nObl := 0
 	usedReviewed := map[string]bool{}
 	dump := os.Getenv("ECALCHECK_DUMP") != ""
+	// all obligations first: an entry can be adopted by an obligation in a callee of its function
+	obsByFn := map[*ssa.Function][]Obligation{}
+	allSites := map[string]bool{}
+	fnByKey := map[string]*ssa.Function{}
 	for _, fn := range funcs {
 		obs := oc.enumerate(fn, nil)
 		obs = append(obs, oc.tokenObligations(fn)...)
 		sortObligations(obs)
+		obsByFn[fn] = obs
+		fnByKey[c.FuncKey(fn)] = fn
+		for _, ob := range obs {
+			allSites[ob.Site] = true
+		}
+	}
+	movedAdopted := map[string]bool{}
+	for _, fn := range funcs {
+		obs := obsByFn[fn]
 		openByNorm := map[string]int{}
 		adopted := map[string]bool{}
 		adoptedByNorm := map[string]int{}
@@ -261,6 +274,41 @@ func checkC06(c *Ctx, r *Result, tier string) {
 				}
 			}
 			sort.Strings(gone)
+			if len(gone) == 0 && len(reviewedByNorm[nk]) == 0 {
+				// the construct moved into a helper: entries of a function that statically calls this
+				// one, whose construct is gone there, with the same shape (kind and asserted type /
+				// sliced operand) and one common argument, at least as many as open obligations here
+				tailNk := nk[strings.Index(nk, "#"):]
+				var cands []string
+				arg := ""
+				sameArg := true
+				for site := range c06Reviewed {
+					snk := normKey(site)
+					if snk == "" || !strings.HasSuffix(snk, tailNk) || snk[:len(snk)-len(tailNk)] == c.FuncKey(fn) {
+						continue
+					}
+					efn := fnByKey[snk[:len(snk)-len(tailNk)]]
+					if efn == nil || allSites[site] || usedReviewed[site] || movedAdopted[site] {
+						continue
+					}
+					if _, calls := staticCalleesIn(c, efn)[fn]; !calls {
+						continue
+					}
+					if arg == "" {
+						arg = c06Reviewed[site]
+					} else if arg != c06Reviewed[site] {
+						sameArg = false
+					}
+					cands = append(cands, site)
+				}
+				sort.Strings(cands)
+				if sameArg && len(cands) > 0 && openByNorm[nk] <= len(cands)+adoptedByNorm[nk] {
+					ob.Site = cands[0]
+					movedAdopted[cands[0]] = true
+					adoptedByNorm[nk]++
+				}
+				continue
+			}
 			if !same || len(gone) == 0 || openByNorm[nk] > len(gone)+adoptedByNorm[nk] {
 				continue
 			}
